@@ -218,7 +218,15 @@ def tokTruthy : Option TokRef → Bool
   | none => false
 
 /-- does the message of this error contain one of `_get_datetime_obj`'s trigger texts? -/
-def dayMsgTriggers : Bool := Gen.getDatetimeObjMsgs.any (fun m => hasSub "day is out of range for month" m)
+def subAt : List Char → List Char → Bool
+  | [], _ => true
+  | _ :: _, [] => false
+  | n :: ns, c :: cs => n == c && subAt ns cs
+/-- `needle in hay` on character lists (structural, kernel-reducible) -/
+def hasSubC (needle : List Char) : List Char → Bool
+  | [] => needle.isEmpty
+  | c :: cs => subAt needle (c :: cs) || hasSubC needle cs
+def dayMsgTriggers : Bool := Gen.getDatetimeObjMsgs.any (fun m => hasSubC m.toList "day is out of range for month".toList)
 
 def getDatetimeObj (st : PSettings) (p : PS) (y mo d h mi s us : Nat) : Except PyErr DT :=
   match mkDT y mo d h mi s us with
